@@ -45,6 +45,11 @@ impl Bench {
             manual,
             stall_next_write: false,
             stall_next_flush: false,
+            op_writes: 0,
+            last_write_partial: false,
+            pend_write_info: None,
+            pend_at_write: None,
+            force_cancel: false,
             keep_tx: true,
             last_cancel_forced: false,
             held: Vec::new(),
